@@ -1,4 +1,5 @@
 import ParryModel.C08.BuildLemmas
+import ParryModel.C08.RefitLemmas
 /-!
 # C08: `do_recurse_rebalance` — induction principle, frame facts, termination (core Lean only)
 -/
@@ -812,6 +813,10 @@ theorem alloc2_spec (q : Q K) (N0 : Nat) (hn : q.freeList.Nodup) (hl : ∀ n ∈
       rw [htr m, a1 m, a2 m] at hm
       rw [s2 m (fun e => hm (Or.inr e)), s1 m (fun e => hm (Or.inl e))]
 
+theorem map_get4' {α β} (f : α → β) (v : Vector α 4) (l : Nat) (y : β) (h : (v.map f)[l]? = some y) :
+    ∃ x, v[l]? = some x ∧ y = f x := by
+  rcases vec4_lane _ l y h with rfl | rfl | rfl | rfl <;> simp at h <;> exact ⟨_, by simp, h.symm⟩
+
 theorem vec4_eq {α} (v : Vector α 4) (a b c d : α) (h0 : v[0]? = some a) (h1 : v[1]? = some b) (h2 : v[2]? = some c)
     (h3 : v[3]? = some d) : v = #v[a, b, c, d] := by
   apply Vector.ext
@@ -819,8 +824,29 @@ theorem vec4_eq {α} (v : Vector α 4) (a b c d : α) (h0 : v[0]? = some a) (h1 
   have : i = 0 ∨ i = 1 ∨ i = 2 ∨ i = 3 := by omega
   rcases this with rfl | rfl | rfl | rfl <;> simp at h0 h1 h2 h3 ⊢ <;> assumption
 
+/-- the order facts about boxes used by `do_recurse_rebalance` (`loosen(margin)` with `margin ≥ 0`, `Aabb::merge`) -/
+structure BoxCtx (K : Type) [Num K] (margin : K) : Prop where
+  laws : BoxLaws K
+  mergeL : ∀ a b : Aabb3 K, boxContains (mergeBox a b) a = true
+  mergeR : ∀ a b : Aabb3 K, boxContains (mergeBox a b) b = true
+  hm : (0 : K) ≤ margin
+
+/-- the boxes stored in the workspace: a kept entry carries the merged box of its node, a proxy entry a box containing
+the current box of its leaf -/
+def BoxPre (ws : Array (WsItem K)) (cur : Nat → Aabb3 K) (q : Q K) (indices : Array Nat) : Prop :=
+  ∀ i ∈ indices, ∀ it : WsItem K, ws[i]? = some it →
+    (it.isLeaf = false → ∃ nd : Node K, q.nodes[it.orig]? = some nd ∧ it.box = mergedBox nd.boxes) ∧
+    (it.isLeaf = true → ∃ pr : Proxy, q.proxies[it.orig]? = some pr ∧ boxContains it.box (cur pr.data) = true)
+
+/-- the box facts a call guarantees: the returned box contains the merged box of the node returned, and every node
+written by the call is up to date -/
+structure BoxPost (cur : Nat → Aabb3 K) (q q' : Q K) (id : Nat) (bx : Aabb3 K) : Prop where
+  ret : (id = MAXN ∧ bx = invalidBox) ∨ (∃ nd : Node K, q'.nodes[id]? = some nd ∧ boxContains bx (mergedBox nd.boxes) = true)
+  good : ∀ (n : Nat) (nd : Node K), Al q q' n → q'.nodes[n]? = some nd → GoodNode q' cur nd
+
 /-- postcondition of a call of `do_recurse_rebalance` on the slice `indices` -/
-structure RebalOut (ws : Array (WsItem K)) (q : Q K) (indices : Array Nat) (par plane : Nat) (q' : Q K) (id : Nat) : Prop where
+structure RebalOut (ws : Array (WsItem K)) (margin : K) (q : Q K) (indices : Array Nat) (par plane : Nat) (q' : Q K) (id : Nat)
+    (bx : Aabb3 K) : Prop where
   frame : RFrame q q'
   nodeSame : ∀ n, ¬ Al q q' n → ¬ KeptIn ws indices n → q'.nodes[n]? = q.nodes[n]?
   keptSame : ∀ k, KeptIn ws indices k → ∃ nd nd' : Node K, q.nodes[k]? = some nd ∧ q'.nodes[k]? = some nd' ∧
@@ -830,11 +856,75 @@ structure RebalOut (ws : Array (WsItem K)) (q : Q K) (indices : Array Nat) (par 
   sub : SubS q' (Al q q') (KeptIn ws indices) (LeafIn ws indices) id par plane
   alClean : ∀ (n : Nat) (nd : Node K), Al q q' n → q'.nodes[n]? = some nd → nd.dirty = false
   alLt : ∀ n, Al q q' n → n < q'.nodes.size
+  box : BoxCtx K margin → ∀ cur : Nat → Aabb3 K, BoxPre ws cur q indices → q'.nodes.size ≤ MAXN → q.proxies.size ≤ MAXN →
+    BoxPost cur q q' id bx
 
-theorem rebalLeaf_spec (ws : Array (WsItem K)) (N0 P0 : Nat) (wok : WsOk ws N0 P0) (q : Q K) (indices : Array Nat)
+/-- the two running boxes of the leaf case contain what has been merged into them -/
+theorem rebalLeafLoop_boxes (ws : Array (WsItem K)) (margin : K) (bc : BoxCtx K margin) (myLeaf myInternal : Nat) :
+    ∀ (l : List Nat) (k : Nat) (a a' : LeafAcc K), rebalLeafLoop ws myLeaf myInternal l k a = some a' →
+      boxContains a'.leafAabb a.leafAabb = true ∧ boxContains a'.internalAabb a.internalAabb = true ∧
+      ∀ (i : Nat) (h : i < l.length) (it : WsItem K), ws[l[i]]? = some it →
+        (it.isLeaf = true → boxContains a'.leafAabb it.box = true) ∧
+        (it.isLeaf = false → boxContains a'.internalAabb it.box = true) := by
+  intro l
+  induction l with
+  | nil =>
+    intro k a a' h
+    simp only [rebalLeafLoop, Option.some.injEq] at h
+    subst h
+    exact ⟨bc.laws.refl _, bc.laws.refl _, fun i h => by simp at h⟩
+  | cons id rest ih =>
+    intro k a a' h
+    unfold rebalLeafLoop at h
+    cases hw : ws[id]? with
+    | none => simp [hw] at h
+    | some it =>
+      simp only [hw] at h
+      by_cases hk : k < 4
+      · simp only [hk, if_true] at h
+        cases hlf : it.isLeaf with
+        | true =>
+          simp only [hlf, if_true] at h
+          cases hp : a.q.proxies[it.orig]? with
+          | none => simp [hp] at h
+          | some pr =>
+            simp only [hp] at h
+            obtain ⟨b1, b2, b3⟩ := ih _ _ _ h
+            dsimp only at b1 b2
+            refine ⟨bc.laws.trans _ _ _ b1 (bc.mergeL _ _), b2, ?_⟩
+            intro i hi it' hit'
+            cases i with
+            | zero =>
+              simp only [List.getElem_cons_zero] at hit'
+              rw [hw] at hit'; cases hit'
+              exact ⟨fun _ => bc.laws.trans _ _ _ b1 (bc.mergeR _ _), fun hc => (by rw [hlf] at hc; cases hc)⟩
+            | succ i =>
+              simp only [List.length_cons] at hi
+              exact b3 i (by omega) it' (by simpa using hit')
+        | false =>
+          simp only [hlf, Bool.false_eq_true, if_false] at h
+          cases hp : a.q.nodes[it.orig]? with
+          | none => simp [hp] at h
+          | some cn =>
+            simp only [hp] at h
+            obtain ⟨b1, b2, b3⟩ := ih _ _ _ h
+            dsimp only at b1 b2
+            refine ⟨b1, bc.laws.trans _ _ _ b2 (bc.mergeL _ _), ?_⟩
+            intro i hi it' hit'
+            cases i with
+            | zero =>
+              simp only [List.getElem_cons_zero] at hit'
+              rw [hw] at hit'; cases hit'
+              exact ⟨fun hc => (by rw [hlf] at hc; cases hc), fun _ => bc.laws.trans _ _ _ b2 (bc.mergeR _ _)⟩
+            | succ i =>
+              simp only [List.length_cons] at hi
+              exact b3 i (by omega) it' (by simpa using hit')
+      · simp [hk] at h
+
+theorem rebalLeaf_spec (ws : Array (WsItem K)) (N0 P0 : Nat) (wok : WsOk ws N0 P0) (margin : K) (q : Q K) (indices : Array Nat)
     (par plane : Nat) (r : Q K × Nat × Aabb3 K) (hsz : indices.size ≤ 4)
     (h : rebalLeaf ws q indices par plane = some r) (hst : StOk ws N0 P0 q) (hnd : indices.toList.Nodup) :
-    RebalOut ws q indices par plane r.1 r.2.1 := by
+    RebalOut ws margin q indices par plane r.1 r.2.1 r.2.2 := by
   unfold rebalLeaf at h
   cases hfl : leafFlags ws indices.toList (false, false) with
   | none => simp [hfl] at h
@@ -873,7 +963,9 @@ theorem rebalLeaf_spec (ws : Array (WsItem K)) (N0 P0 : Nat) (wok : WsOk ws N0 P
         have hfin : (∀ m : Nat, r.1.nodes[m]? = if hasLeaf = true ∧ m = L then some nodeL else if hasInternal = true ∧ m = I then some nodeI
               else a.q.nodes[m]?) ∧
             r.1.proxies = a.q.proxies ∧ r.1.freeList = a.q.freeList ∧ r.1.dirtyNodes = a.q.dirtyNodes ∧
-            r.1.nodes.size = a.q.nodes.size ∧ r.2.1 = (if hasInternal = true then I else L) := by
+            r.1.nodes.size = a.q.nodes.size ∧ r.2.1 = (if hasInternal = true then I else L) ∧
+            r.2.2 = (if hasInternal = true then (if hasLeaf = true then mergeBox a.internalAabb a.leafAabb else a.internalAabb)
+              else a.leafAabb) := by
           have hIlt : hasInternal = true → I < a.q.nodes.size := fun hh => by rw [o.nsize]; exact A2.ltI hh
           have hLlt : hasLeaf = true → L < a.q.nodes.size := fun hh => by rw [o.nsize]; exact A2.ltL hh
           cases hasInternal <;> cases hasLeaf
@@ -882,7 +974,7 @@ theorem rebalLeaf_spec (ws : Array (WsItem K)) (N0 P0 : Nat) (wok : WsOk ws N0 P
             simp
           · simp only [Bool.false_eq_true, if_false, if_true, writeNode, hLlt rfl, Option.some.injEq] at h
             subst h
-            refine ⟨?_, rfl, rfl, rfl, by simp, rfl⟩
+            refine ⟨?_, rfl, rfl, rfl, by simp, rfl, rfl⟩
             intro m
             simp only [Array.getElem?_setIfInBounds, Bool.false_eq_true, false_and, if_false, true_and]
             by_cases hm : L = m
@@ -890,7 +982,7 @@ theorem rebalLeaf_spec (ws : Array (WsItem K)) (N0 P0 : Nat) (wok : WsOk ws N0 P
             · simp [hm, Ne.symm hm]
           · simp only [Bool.false_eq_true, if_false, if_true, writeNode, hIlt rfl, Option.some.injEq] at h
             subst h
-            refine ⟨?_, rfl, rfl, rfl, by simp, rfl⟩
+            refine ⟨?_, rfl, rfl, rfl, by simp, rfl, rfl⟩
             intro m
             simp only [Array.getElem?_setIfInBounds, Bool.false_eq_true, false_and, if_false, true_and]
             by_cases hm : I = m
@@ -899,7 +991,7 @@ theorem rebalLeaf_spec (ws : Array (WsItem K)) (N0 P0 : Nat) (wok : WsOk ws N0 P
           · have hne := A2.ne rfl rfl
             simp only [if_true, writeNode, hIlt rfl, Array.size_setIfInBounds, hLlt rfl, Option.some.injEq] at h
             subst h
-            refine ⟨?_, rfl, rfl, rfl, by simp, rfl⟩
+            refine ⟨?_, rfl, rfl, rfl, by simp, rfl, rfl⟩
             intro m
             simp only [Array.getElem?_setIfInBounds, true_and, Array.size_setIfInBounds]
             by_cases hm : L = m
@@ -907,12 +999,15 @@ theorem rebalLeaf_spec (ws : Array (WsItem K)) (N0 P0 : Nat) (wok : WsOk ws N0 P
             · by_cases hm2 : I = m
               · subst hm2; simp [hIlt rfl, hm, Ne.symm hm]
               · simp [hm, hm2, Ne.symm hm, Ne.symm hm2]
-        obtain ⟨hG, hprox2, hfree2, hdirty2, hsize2, hid⟩ := hfin
+        obtain ⟨hG, hprox2, hfree2, hdirty2, hsize2, hid, hbx⟩ := hfin
         clear h
         have cI : nodeI.children = (if hasLeaf = true then a.internalIds.setIfInBounds a.laneWithLeaf L else a.internalIds) := by
           rw [← hnI]
         have pI : nodeI.parent = par ∧ nodeI.plane = plane ∧ nodeI.leaf = false ∧ nodeI.dirty = false := by
           rw [← hnI]; exact ⟨rfl, rfl, rfl, rfl⟩
+        have bI : nodeI.boxes = (if hasLeaf = true then a.internalBoxes.setIfInBounds a.laneWithLeaf a.leafAabb else a.internalBoxes) := by
+          rw [← hnI]
+        have bL : nodeL.boxes = a.leafBoxes := by rw [← hnL]
         have cL : nodeL.children = a.proxyIds ∧ nodeL.parent = (if hasInternal = true then I else par) ∧
             nodeL.plane = (if hasInternal = true then a.laneWithLeaf else plane) ∧ nodeL.leaf = true ∧ nodeL.dirty = false := by
           rw [← hnL]; exact ⟨rfl, rfl, rfl, rfl, rfl⟩
@@ -1185,7 +1280,7 @@ theorem rebalLeaf_spec (ws : Array (WsItem K)) (N0 P0 : Nat) (wok : WsOk ws N0 P
                 refine ⟨fun hf => hf.elim, ?_⟩
                 rintro ⟨i, hi, it, e, e1, e2⟩
                 exact hh (hL.2 ⟨i, by simpa using hi, n, it, e, e1, e2⟩)
-        refine ⟨hframe, ?_, ?_, ?_, ?_, hsubst, ?_, ?_⟩
+        refine ⟨hframe, ?_, ?_, ?_, ?_, hsubst, ?_, ?_, ?_⟩
         · intro m hm hk
           rw [hOld m hm, o.nodeSame m (fun hh => hk ((hKeptL m).2 hh))]
           exact A2.same m (fun hh => hm ((hAl m).2 ((A2.al m).1 hh)))
@@ -1218,6 +1313,174 @@ theorem rebalLeaf_spec (ws : Array (WsItem K)) (N0 P0 : Nat) (wok : WsOk ws N0 P
           rcases (hAl n).1 hn with ⟨hh, rfl⟩ | ⟨hh, rfl⟩
           · exact A2.ltI hh
           · exact A2.ltL hh
+
+        · -- boxes
+          intro bc cur hpre hsmall hpsmall
+          obtain ⟨la, ia, lb⟩ := rebalLeafLoop_boxes ws margin bc L I _ _ _ _ hloop
+          dsimp only at la ia
+          have hps2 : r.1.proxies.size ≤ MAXN := by rw [hprox2, o.psize, A2.prox]; exact hpsmall
+          -- every lane of the leaf boxes is contained in the running leaf box
+          have hleafLanes : ∀ (l' : Nat) (b : Aabb3 K), a.leafBoxes[l']? = some b → boxContains a.leafAabb b = true := by
+            intro l' b hb
+            by_cases hlt : l' < indices.toList.length
+            · obtain ⟨_, it, e, f1, f2⟩ := hitem l' hlt
+              cases hlf : it.isLeaf with
+              | true =>
+                obtain ⟨_, c2, _⟩ := f1 hlf
+                rw [c2] at hb; cases hb
+                exact (lb l' hlt it e).1 hlf
+              | false =>
+                obtain ⟨_, _, _, c4, _⟩ := f2 hlf
+                rw [c4] at hb
+                rw [replicate4_get _ _ _ hb]; exact la
+            · obtain ⟨_, _, c3, _⟩ := o.lanesSame l' (Or.inr (by omega))
+              rw [c3] at hb
+              rw [replicate4_get _ _ _ hb]; exact la
+          have hleafMerged : boxContains a.leafAabb (mergedBox nodeL.boxes) = true := by
+            rw [bL]; exact bc.laws.mergedLeast _ _ hleafLanes
+          -- the new leaf is up to date
+          have hgoodL : hasLeaf = true → GoodNode r.1 cur nodeL := by
+            intro hh
+            unfold GoodNode
+            apply containsAll_of_lanes
+            intro l' x y hx hy
+            rw [bL] at hx
+            simp only [freshBoxes, cL.2.2.2.1, if_true, cL.1] at hy
+            obtain ⟨c', hc', rfl⟩ := map_get4' _ _ _ _ hy
+            by_cases hlt : l' < indices.toList.length
+            · obtain ⟨_, it, e, f1, f2⟩ := hitem l' hlt
+              cases hlf : it.isLeaf with
+              | true =>
+                obtain ⟨c1, c2, _, _, pr, c5, c6⟩ := f1 hlf
+                rw [c1] at hc'; cases hc'
+                rw [c2] at hx; cases hx
+                rw [hprox2, c6]
+                dsimp only
+                obtain ⟨pr0, e0, g0⟩ := (hpre indices.toList[l'] (by simpa using List.getElem_mem hlt) it e).2 hlf
+                have : q.proxies[it.orig]? = some pr := by rw [← A2.prox]; exact c5
+                rw [e0] at this; cases this
+                exact g0
+              | false =>
+                obtain ⟨_, _, c3, c4, _⟩ := f2 hlf
+                rw [c3] at hc'; rw [c4] at hx
+                rw [replicate4_get _ _ _ hc', replicate4_get _ _ _ hx, Array.getElem?_eq_none (by omega)]
+                exact bc.laws.refl _
+            · obtain ⟨c1, _, c3, _⟩ := o.lanesSame l' (Or.inr (by omega))
+              rw [c1] at hc'; rw [c3] at hx
+              rw [replicate4_get _ _ _ hc', replicate4_get _ _ _ hx, Array.getElem?_eq_none (by omega)]
+              exact bc.laws.refl _
+          -- lane by lane: the boxes and children of the new internal node
+          have hlaneI : hasInternal = true → ∀ (j : Nat) (x : Aabb3 K) (c' : Nat), nodeI.boxes[j]? = some x →
+              nodeI.children[j]? = some c' →
+              boxContains (if hasLeaf = true then mergeBox a.internalAabb a.leafAabb else a.internalAabb) x = true ∧
+              boxContains x (match r.1.nodes[c']? with
+                | some cn => mergedBox cn.boxes
+                | none => invalidBox) = true := by
+            intro hhI j x c' hx hc'
+            have hj4 : j < 4 := by rcases vec4_lane _ j x hx with h | h | h | h <;> omega
+            have hret : ∀ y, boxContains a.internalAabb y = true →
+                boxContains (if hasLeaf = true then mergeBox a.internalAabb a.leafAabb else a.internalAabb) y = true := by
+              intro y hy
+              split
+              · exact bc.laws.trans _ _ _ (bc.mergeL _ _) hy
+              · exact hy
+            rw [bI] at hx; rw [cI] at hc'
+            by_cases c2 : hasLeaf = true ∧ j = a.laneWithLeaf
+            · obtain ⟨hh, ej⟩ := c2
+              simp only [hh, if_true, Vector.getElem?_setIfInBounds, ← ej, hj4] at hx hc'
+              cases hx; cases hc'
+              rw [hnL hh, if_pos hh]
+              exact ⟨bc.mergeR _ _, hleafMerged⟩
+            · have hx' : a.internalBoxes[j]? = some x := by
+                by_cases hh : hasLeaf = true
+                · have : a.laneWithLeaf ≠ j := fun e' => c2 ⟨hh, e'.symm⟩
+                  simpa only [hh, if_true, Vector.getElem?_setIfInBounds, this, if_false] using hx
+                · rw [if_neg hh] at hx; exact hx
+              have hc'' : a.internalIds[j]? = some c' := by
+                by_cases hh : hasLeaf = true
+                · have : a.laneWithLeaf ≠ j := fun e' => c2 ⟨hh, e'.symm⟩
+                  simpa only [hh, if_true, Vector.getElem?_setIfInBounds, this, if_false] using hc'
+                · rw [if_neg hh] at hc'; exact hc'
+              have hinvalid : a.internalBoxes[j]? = some invalidBox → a.internalIds[j]? = some MAXN →
+                  boxContains (if hasLeaf = true then mergeBox a.internalAabb a.leafAabb else a.internalAabb) x = true ∧
+                  boxContains x (match r.1.nodes[c']? with
+                    | some cn => mergedBox cn.boxes
+                    | none => invalidBox) = true := by
+                intro h1 h2
+                rw [hx'] at h1; cases h1
+                rw [hc''] at h2; cases h2
+                rw [Array.getElem?_eq_none (by omega)]
+                exact ⟨hret _ ia, bc.laws.refl _⟩
+              by_cases hlt : j < indices.toList.length
+              · obtain ⟨_, it, e, f1, f2⟩ := hitem j hlt
+                cases hlf : it.isLeaf with
+                | true =>
+                  obtain ⟨_, _, c3, c4, _⟩ := f1 hlf
+                  exact hinvalid (by rw [c4]; simp [hj4]) (by rw [c3]; simp [hj4])
+                | false =>
+                  obtain ⟨c1, c2', _, _, cn, c5, c6⟩ := f2 hlf
+                  rw [c1] at hc''; cases hc''
+                  rw [c2'] at hx'; cases hx'
+                  have hk : KeptIn ws indices it.orig :=
+                    ⟨indices.toList[j], by simpa using List.getElem_mem hlt, it, e, hlf, rfl⟩
+                  rw [hOld _ (hKeptNotAl _ hk), c6]
+                  dsimp only
+                  obtain ⟨nd0, e0, g0⟩ := (hpre indices.toList[j] (by simpa using List.getElem_mem hlt) it e).1 hlf
+                  have : q.nodes[it.orig]? = some cn := by
+                    rw [← A2.same _ (fun hh => hKeptNotAl _ hk ((hAl _).2 ((A2.al _).1 hh)))]; exact c5
+                  rw [e0] at this; cases this
+                  rw [g0]
+                  refine ⟨hret _ ?_, bc.laws.refl _⟩
+                  rw [← g0]; exact (lb j hlt it e).2 hlf
+              · obtain ⟨_, c2', _, c4⟩ := o.lanesSame j (Or.inr (by omega))
+                exact hinvalid (by rw [c4]; simp [hj4]) (by rw [c2']; simp [hj4])
+          refine ⟨?_, ?_⟩
+          · rw [hid, hbx]
+            by_cases hhI : hasInternal = true
+            · simp only [hhI, if_true]
+              right
+              have hnI : r.1.nodes[I]? = some nodeI := by
+                rw [hG I]
+                by_cases hx : hasLeaf = true ∧ I = L
+                · exact absurd hx.2 (A2.ne hhI hx.1)
+                · simp [hx, hhI]
+              refine ⟨nodeI, hnI, bc.laws.mergedLeast _ _ ?_⟩
+              intro j x hx
+              have hj4 : j < 4 := by rcases vec4_lane _ j x hx with h | h | h | h <;> omega
+              exact (hlaneI hhI j x nodeI.children[j] hx (by simp [hj4])).1
+            · simp only [hhI, if_false]
+              by_cases hh : hasLeaf = true
+              · exact Or.inr ⟨nodeL, hnL hh, hleafMerged⟩
+              · left
+                refine ⟨A2.noL (by simpa using hh), ?_⟩
+                -- nothing was merged: the slice is empty
+                have hnil : indices.toList = [] := by
+                  cases hl : indices.toList with
+                  | nil => rfl
+                  | cons i rest =>
+                    exfalso
+                    obtain ⟨it, e⟩ := hall i (by simp [hl])
+                    cases hlf : it.isLeaf with
+                    | true => exact hh (hL.2 ⟨i, by simp [hl], it.orig, it, e, hlf, rfl⟩)
+                    | false => exact hhI (hI.2 ⟨i, by simp [hl], it.orig, it, e, hlf, rfl⟩)
+                rw [hnil] at hloop
+                simp only [rebalLeafLoop, Option.some.injEq] at hloop
+                rw [← hloop]
+                simp
+          · intro n nd hn hnd'
+            rw [hG n] at hnd'
+            rcases (hAl n).1 hn with ⟨hh, rfl⟩ | ⟨hh, rfl⟩
+            · by_cases hx : hasLeaf = true ∧ n = L
+              · exact absurd hx.2 (A2.ne hh hx.1)
+              · simp only [hx, if_false, hh, true_and, if_true, Option.some.injEq] at hnd'; subst hnd'
+                unfold GoodNode
+                apply containsAll_of_lanes
+                intro j x y hx' hy
+                simp only [freshBoxes, pI.2.2.1, Bool.false_eq_true, if_false] at hy
+                obtain ⟨c', hc', rfl⟩ := map_get4' _ _ _ _ hy
+                exact (hlaneI hh j x c' hx' hc').2
+            · simp only [hh, true_and, if_true, Option.some.injEq] at hnd'; subst hnd'
+              exact hgoodL hh
 
 /-! ## the recursive case -/
 
@@ -1270,3 +1533,23 @@ theorem Al.disjoint' {ws : Array (WsItem K)} {N0 P0 : Nat} {a b c d : Q K} (st :
   have stb := st.frame h1
   have : Al b d n := (Al.trans_iff h2 h3 stb.flNodup stb.flLt stb.n0 n).2 (Or.inr y)
   exact Al.disjoint h1 (h2.trans h3) st.flNodup st.flLt st.n0 n x this
+
+/-- `GoodNode` of a freshly written node survives changes that leave its subtree's nodes and proxies alone -/
+theorem goodNode_frameS {q q' : Q K} {A Kp S : Nat → Prop} {root par plane : Nat} (cur : Nat → Aabb3 K)
+    (sub : SubS q A Kp S root par plane)
+    (hn : ∀ n, (A n ∨ Kp n) → q'.nodes[n]? = q.nodes[n]?) (hp : ∀ p, S p → q'.proxies[p]? = q.proxies[p]?)
+    (hs : q.nodes.size ≤ MAXN) (hs' : q'.nodes.size ≤ MAXN) (hps : q.proxies.size ≤ MAXN) (hps' : q'.proxies.size ≤ MAXN)
+    (n : Nat) (nd : Node K) (hA : A n) (hnd : q.nodes[n]? = some nd) (g : GoodNode q cur nd) : GoodNode q' cur nd := by
+  unfold GoodNode at g ⊢
+  rw [freshBoxes_congr q q' cur cur nd nd rfl rfl ?_ ?_]
+  · exact g
+  · intro hleaf l c hc
+    by_cases hcm : c = MAXN
+    · subst hcm
+      rw [Array.getElem?_eq_none (by omega), Array.getElem?_eq_none (by omega)]
+    · rw [hp c (sub.leafProxy n nd hA hnd hleaf l c hc hcm).1]
+  · intro hleaf l c hc
+    by_cases hcm : c = MAXN
+    · subst hcm
+      rw [Array.getElem?_eq_none (by omega), Array.getElem?_eq_none (by omega)]
+    · rw [hn c (sub.child n nd hA hnd hleaf l c hc hcm).1]
